@@ -1,6 +1,7 @@
 package pcv
 
 import (
+	"go/token"
 	"fmt"
 	"go/types"
 
@@ -61,7 +62,7 @@ func runC18(c *Ctx) {
 	}
 	for _, f := range rangeFns {
 		c.Touch(f)
-		lenV := TVar(CellLen("p0.buffer"))
+		lenV := TVar(CellLen("p0." + fBuffer.Name()))
 		off, lim := TVar("param:1"), TVar("param:2")
 		base := []Lin{LE(TConst(0), lenV)}
 		a := &LinAnalysis{P: p, Fn: f, Assume: base}
@@ -189,11 +190,25 @@ func runC18(c *Ctx) {
 	if len(writers) == 0 {
 		c.Bad(rBuf, "buffer-writer:none", "", "no writer method stores the buffer")
 	}
-	slackC := p.Const("pclog", "slack")
-	slack, _ := ConstOfObj(slackC)
+	// the slack: the integer constant added to size in the writer's trim test
+	var slack int64 = -1
+	for _, w := range writers {
+		AllInstrs(w, func(in ssa.Instruction) {
+			if bo, ok := in.(*ssa.BinOp); ok && bo.Op == token.ADD {
+				for _, pr := range [][2]ssa.Value{{bo.X, bo.Y}, {bo.Y, bo.X}} {
+					if k, isK := ConstInt(pr[1]); isK && PathOf(pr[0]).LastField() == fSize {
+						slack = k
+					}
+				}
+			}
+		})
+	}
+	if slack < 0 {
+		broken("ANCHOR-UNRESOLVED the writer's trim test len(buffer) > size + <const> was not found")
+	}
 	for _, w := range writers {
 		c.Touch(w)
-		lenV, size := TVar(CellLen("p0.buffer")), TVar("cell:p0.size")
+		lenV, size := TVar(CellLen("p0."+fBuffer.Name())), TVar("cell:p0."+fSize.Name())
 		bound := size.Add(TConst(slack))
 		a := &LinAnalysis{P: p, Fn: w, Assume: []Lin{LE(TConst(0), lenV), LE(TConst(0), size), LE(lenV, bound)}}
 		trimOK, nTrim := true, 0
